@@ -170,6 +170,14 @@ def fingerprint(roots, skip_keys=()):
             stack.append(("v", o.__self__))
         elif isinstance(o, (_dt.datetime, _dt.date, _dt.time, _dt.timedelta)):
             out.append(repr(o))
+        elif isinstance(o, type) and getattr(o, "__module__", "").startswith("labella"):
+            out.append("C:" + o.__name__)
+            for k in sorted(vars(o), reverse=True):
+                if not (k.startswith("__") and k.endswith("__")):
+                    stack.append(("v", vars(o)[k]))
+                    stack.append(("s", k))
+        elif isinstance(o, (classmethod, staticmethod)):
+            stack.append(("v", o.__func__))
         elif isinstance(o, (type, _types.ModuleType, _types.BuiltinFunctionType)):
             out.append("T:" + getattr(o, "__name__", "?"))
         elif hasattr(o, "__dict__"):
@@ -178,6 +186,18 @@ def fingerprint(roots, skip_keys=()):
         else:
             out.append("?" + type(o).__name__)
     return "|".join(out)
+
+
+def labella_globals():
+    """Module-level state of every loaded labella module (for fingerprints)."""
+    out = {}
+    for name in sorted(sys.modules):
+        if name == "labella" or name.startswith("labella."):
+            m = sys.modules[name]
+            if m is None:
+                continue
+            out[name] = {k: v for k, v in vars(m).items() if not (k.startswith("__") and k.endswith("__"))}
+    return out
 
 
 def fp_hash(roots, skip_keys=()):
@@ -270,6 +290,49 @@ def _run_one(arg):
     return res
 
 
+def _expand_one(arg):
+    modname, idx, ctx, hist = arg
+    mod = importlib.import_module(modname)
+    acc = Acc()
+    succ = mod.hist_expand(ctx, hist, acc)
+    res = acc.result()
+    res["idx"] = idx
+    res["succ"] = succ
+    return res
+
+
+def run_levels(modname, mod, tier, seed, pool, results):
+    """Level-synchronous breadth-first search over operation histories.
+
+    The frontier of one level is expanded in parallel (each expansion replays its
+    history on fresh real objects and tries every enabled operation); successor
+    states are deduplicated centrally by fingerprint, in frontier order, so the
+    search, the counts and the first counterexample do not depend on the number
+    of workers.  Returns the number of distinct states."""
+    init = mod.hist_init(tier, seed)
+    seen = set(init.get("root_fps", []))
+    frontier = [list(h) for h in init["roots"]]
+    base = 10 ** 6
+    level = 0
+    while frontier and level < init["depth"]:
+        args = [(modname, base + i, init["ctx"], h) for i, h in enumerate(frontier)]
+        if pool is None:
+            out = [_expand_one(a) for a in args]
+        else:
+            out = list(pool.imap(_expand_one, args, chunksize=max(1, len(args) // 64)))
+        nxt = []
+        for r in out:
+            for fp, nh in r.pop("succ"):
+                if fp not in seen:
+                    seen.add(fp)
+                    nxt.append(nh)
+            results.append(r)
+        base += len(args) + 1
+        frontier = nxt
+        level += 1
+    return len(seen), level
+
+
 def load_known():
     p = os.path.join(VERIF, "known_findings.json")
     if not os.path.exists(p):
@@ -335,16 +398,21 @@ def run_check(pid, tier, seed, workers=None):
     t0 = time.time()
     modname = "mc.props." + pid.lower()
     mod = importlib.import_module(modname)
-    shards = mod.plan(tier, seed)
+    shards = mod.plan(tier, seed) if hasattr(mod, "plan") else []
     workers = workers or int(os.environ.get("VERIF_WORKERS", "0")) or min(16, os.cpu_count() or 1)
-    workers = max(1, min(workers, len(shards)))
+    workers = max(1, workers)
     args = [(modname, i, s) for i, s in enumerate(shards)]
+    hist_states = hist_levels = 0
     if workers == 1:
         results = [_run_one(a) for a in args]
+        if hasattr(mod, "hist_init"):
+            hist_states, hist_levels = run_levels(modname, mod, tier, seed, None, results)
     else:
         ctx = mp.get_context("fork")
         with ctx.Pool(workers, initializer=_worker_init) as pool:
             results = list(pool.imap_unordered(_run_one, args, chunksize=1))
+            if hasattr(mod, "hist_init"):
+                hist_states, hist_levels = run_levels(modname, mod, tier, seed, pool, results)
     results.sort(key=lambda r: r["idx"])
 
     tot = collections.Counter()
@@ -367,7 +435,7 @@ def run_check(pid, tier, seed, workers=None):
         if len(samples) < 4:
             samples += r["samples"][:1]
 
-    tot["states"] += len(state_union)  # E-HIST shards report fingerprints; the union is the distinct-state count
+    tot["states"] += len(state_union) + hist_states  # E-HIST: distinct fingerprints
     # canonical order: simplest case first, independent of the worker count
     viol.sort(key=lambda v: (v.get("ord") is None, v.get("ord") or [], v["shard"]))
     # ---- triage: known findings vs. violations
@@ -422,6 +490,7 @@ def run_check(pid, tier, seed, workers=None):
         "counters": dict(sorted(counters.items())),
         "distinct_outcomes": len(outcomes),
         "shards": len(shards),
+        "history_search": {"distinct_states": hist_states, "levels_completed": hist_levels} if hist_states else None,
         "workers": workers,
         "bounds": mod.bounds(tier, seed) if hasattr(mod, "bounds") else {},
         "known_findings_hit": sorted(known_hit),
